@@ -27,8 +27,23 @@ def main():
             rc = mod.replay(a.replay)
         else:
             rc = mod.run(a.tier)
-    except Exception:  # infrastructure error, never reported as a violation
-        traceback.print_exc()
+    except Exception as e:
+        tb = traceback.format_exc()
+        frames = traceback.extract_tb(e.__traceback__)
+        in_repo = [f for f in frames if str(common.REPO) in f.filename]
+        if in_repo and not a.replay:
+            # the implementation itself raised on an input the harness feeds it on every run of the unchanged
+            # tree: the exploration could not be carried out, so the property is no longer shown to hold
+            sys.stderr.write(tb)
+            r = common.Run(a.prop, a.tier)
+            r.rule = "the check aborted because gettsim raised"
+            r.oblige("the check ran to completion", False, f"{type(e).__name__}: {str(e)[:200]}")
+            r.broke("implementation-raises", f"{type(e).__name__} in {in_repo[-1].filename.split('/src/')[-1]}:{in_repo[-1].lineno} "
+                    f"({in_repo[-1].name}) while running the check: {str(e)[:300]}", tb[-3000:])
+            r.case({"aborted": str(e)[:100]})
+            r.case({"aborted-2": tb[-200:]})
+            sys.exit(r.finish())
+        sys.stderr.write(tb)  # infrastructure error, never reported as a violation
         sys.exit(2)
     sys.exit(rc)
 
